@@ -242,6 +242,9 @@ func checkC01(w *World, r *Report) {
 	r.Rule("C01.R5", "an accepted message is processed without further stimulus (the C03 wake-up protocol) and from a ring with sound length accounting (C14.R2/R3): necessary for 'delivered exactly once'", 8)
 	importRules(w, r, checkC03, "C03", "C01.R5", nil)
 	importRules(w, r, checkC14, "C14", "C01.R5", nil)
+	importRules(w, r, checkC07, "C07", "C01.R5", func(o *Obligation) bool {
+		return strings.Contains(o.Key, "drain-starts-at-pill") || strings.Contains(o.Key, "nothing-after-stop")
+	})
 	importRules(w, r, checkC02, "C02", "C01.R5", func(o *Obligation) bool { return o.Rule == "C02.R2" || o.Rule == "C02.R3" || o.Rule == "C02.R1" })
 }
 
